@@ -94,7 +94,7 @@ def rand_any_op(rng, n, nterms=None):
     for _ in range(nterms or rng.choice([1, 2, 3, 4])):
         L = rng.choice([0, 1, 2, 2, 3, 4])
         t = tuple((rng.randrange(n), rng.randint(0, 1)) for _ in range(L))
-        terms[t] = terms.get(t, 0) + dyadic(rng, max_num=4, max_pow=2)
+        terms[t] = terms.get(t, 0) + (band_coef(rng) if rng.random() < 0.2 else dyadic(rng, max_num=4, max_pow=2))
     return {t: c for t, c in terms.items() if c != 0}
 
 
@@ -120,7 +120,7 @@ def rand_conserving_op(rng, n, spin=False, nterms=None):
     terms = {}
     for _ in range(nterms or rng.choice([1, 2, 3, 4])):
         t = rand_conserving_term(rng, n, spin) if rng.random() < 0.92 else ()
-        terms[t] = terms.get(t, 0) + dyadic(rng, max_num=4, max_pow=2)
+        terms[t] = terms.get(t, 0) + (band_coef(rng) if rng.random() < 0.2 else dyadic(rng, max_num=4, max_pow=2))
     return {t: c for t, c in terms.items() if c != 0}
 
 
@@ -299,8 +299,8 @@ def check_restrict(ctx, stream, big):
         H = fop(of, f)
         S = of.get_sparse_operator(H, n)
         full = None
-        vec = numpy.array([dyadic(rng, max_num=4, max_pow=2, complex_p=0.4) if rng.random() < 0.7 else 0.0
-                           for _ in range(2 ** n)], dtype=complex)
+        vec = numpy.array([(band_coef(rng) if rng.random() < 0.35 else dyadic(rng, max_num=4, max_pow=2, complex_p=0.4))
+                           if rng.random() < 0.7 else 0.0 for _ in range(2 ** n)], dtype=complex)
         variants = [('number', k, None) for k in range(0, n + 1)]
         if n % 2 == 0:
             sites = n // 2
@@ -656,6 +656,534 @@ def check_ground(ctx, stream, big):
                 stream.violate('; '.join(bad), case, {'energy': E, 'expected': emin})
 
 
+# ------------------------------------------------------------------ hardening: state, types, bands, asymmetry
+
+BAND = [2.0 ** -12, 3 * 2.0 ** -15, -5 * 2.0 ** -19, 2.0 ** -21, 1j * 2.0 ** -14, (3 - 2j) * 2.0 ** -18]
+
+
+def band_coef(rng):
+    """coefficients of magnitude 1e-7 .. 1e-4 (exact dyadic values, a decade above the pruning tolerance 1e-8),
+    purely imaginary and complex ones"""
+    r = rng.random()
+    if r < 0.5:
+        return rng.choice(BAND)
+    if r < 0.75:
+        return 1j * rng.choice([1, -2, 0.5, 3, -0.25])
+    return dyadic(rng, max_num=4, max_pow=2, complex_p=0.6)
+
+
+def canon_val(x):
+    """exact, comparison-friendly form of a returned value / argument"""
+    import openfermion
+    if isinstance(x, openfermion.SymbolicOperator):
+        return ('op', canon_op_json(enc_op('fermion', x.terms)))
+    if scipy.sparse.issparse(x):
+        return ('mat', x.shape, gq_matrix(x))
+    if isinstance(x, numpy.ndarray):
+        if x.dtype == object:
+            return ('objarr', [canon_val(y) for y in x.ravel()])
+        return ('arr', x.shape, [to_gq(y) for y in x.ravel()])
+    if isinstance(x, (list, tuple)):
+        return (type(x).__name__, [canon_val(y) for y in x])
+    if isinstance(x, (bool, numpy.bool_)):
+        return ('b', bool(x))
+    if isinstance(x, (int, float, complex, numpy.number)):
+        return ('n', tuple(to_gq(x)))
+    if x is None:
+        return None
+    return ('repr', repr(x))
+
+
+def mutate_in_place(x, depth=0):
+    """modify a returned value in place (what a caller is free to do with its own result)"""
+    import openfermion
+    if isinstance(x, openfermion.SymbolicOperator):
+        x += type(x)(((0, 1), (0, 0)), 3.25)
+        x *= 2
+    elif scipy.sparse.issparse(x):
+        try:
+            if x.nnz:
+                x.data[:] = 7
+            else:
+                x.resize((x.shape[0] + 1, x.shape[1] + 1))
+        except Exception:  # noqa: BLE001
+            pass
+    elif isinstance(x, numpy.ndarray):
+        if x.size and x.flags.writeable:
+            if x.dtype == bool:
+                numpy.logical_not(x, out=x)
+            else:
+                x += 3
+    elif isinstance(x, list):
+        if depth < 2:
+            for y in x:
+                mutate_in_place(y, depth + 1)
+        x += [12345, 7]
+        x[0] = -9
+    elif isinstance(x, tuple):
+        for y in x:
+            mutate_in_place(y, depth + 1)
+
+
+def arrays_of(x):
+    if isinstance(x, numpy.ndarray) and x.dtype != object:
+        return [x]
+    if isinstance(x, (list, tuple)):
+        return [a for y in x for a in arrays_of(y)]
+    return []
+
+
+def state_check(stream, name, make_args, call, case_extra=None):
+    """(S): call, modify the result in place, call again: same value; arguments untouched; no aliasing"""
+    case = {'fn': name, 'check': 'state'}
+    case.update(case_extra or {})
+    stream.case(case)
+    stream.count('state:' + name)
+    try:
+        args = make_args()
+        snap = canon_val(list(args))
+        r1 = call(*args)
+        if canon_val(list(args)) != snap:
+            stream.violate('%s modified its arguments' % name, case, {})
+            return None
+        c1 = canon_val(r1)
+        for a in arrays_of(r1):
+            for b in arrays_of(list(args)):
+                if numpy.shares_memory(a, b):
+                    stream.violate('%s returns memory shared with an argument' % name, case, {})
+                    return c1
+        mutate_in_place(r1)
+        if canon_val(list(args)) != snap:
+            stream.violate('modifying the result of %s in place changed an argument' % name, case, {})
+            return c1
+        r2 = call(*args)
+        if r2 is r1 and isinstance(r1, (list, numpy.ndarray)):
+            stream.violate('%s returned the same mutable object twice' % name, case, {})
+        c2 = canon_val(r2)
+        if c2 != c1:
+            stream.violate('%s: a second call after modifying the first result in place gives a different value' % name,
+                           case, {'first': show(c1, 600), 'second': show(c2, 600)})
+        c3 = canon_val(call(*make_args()))
+        if c3 != c1:
+            stream.violate('%s is not deterministic on fresh arguments' % name, case, {})
+        return c1
+    except Exception as e:  # noqa: BLE001
+        stream.violate('%s raised %s in the state check' % (name, errname(e)), case, {})
+        return None
+
+
+def type_check(stream, name, reference, variants, canon=canon_val):
+    """(T): the same call with other accepted argument types / containers gives the same value"""
+    try:
+        ref = canon(reference())
+    except Exception as e:  # noqa: BLE001
+        stream.violate('%s raised %s' % (name, errname(e)), {'fn': name, 'check': 'types'}, {})
+        return
+    for label, f in variants:
+        case = {'fn': name, 'check': 'types', 'variant': label}
+        stream.case(case)
+        stream.count('types:' + name)
+        try:
+            got = canon(f())
+        except Exception as e:  # noqa: BLE001
+            stream.violate('%s raised %s for argument types accepted by the library (%s)' % (name, errname(e), label),
+                           case, {})
+            continue
+        if got != ref:
+            stream.violate('%s gives a different value for argument types %s' % (name, label), case,
+                           {'reference': show(ref, 500), 'got': show(got, 500)})
+
+
+def values_only(x):
+    """canon form that ignores container type, sparse / dense representation and dtype"""
+    if scipy.sparse.issparse(x):
+        x = x.toarray()
+    if isinstance(x, numpy.ndarray) and x.dtype != object:
+        x = numpy.asarray(x)
+        if x.ndim == 0:
+            return tuple(to_gq(x.item()))
+        return [values_only(y) for y in x]
+    if isinstance(x, (list, tuple)):
+        return [values_only(y) for y in x]
+    if isinstance(x, (bool, numpy.bool_)):
+        return (int(x), 1, 0, 1)
+    if isinstance(x, (int, float, complex, numpy.number)):
+        return tuple(to_gq(x))
+    return canon_val(x)
+
+
+def comb(n, k):
+    import math
+    return math.comb(n, k) if 0 <= k <= n else 0
+
+
+def check_hardening(ctx, stream, big):
+    of = ctx.of
+    from openfermion.linalg import sparse_tools as st
+    from openfermion.hamiltonians import special_operators as so
+    rng = rng_for(ctx.seed, 'c10-hard')
+    I64, I32, I8, U8 = numpy.int64, numpy.int32, numpy.int8, numpy.uint8
+
+    # ---------------- (S) every function, around an in-place modification of its result
+    for (k, n) in [(1, 4), (2, 4), (0, 3), (3, 3), (2, 6)]:
+        state_check(stream, 'jw_number_indices', lambda: (k, n), st.jw_number_indices, {'args': [k, n]})
+    for (sz, n, ne) in [(0.0, 4, 2), (0.5, 4, 1), (-1.0, 4, None), (0.0, 2, None), (0.5, 6, 3)]:
+        state_check(stream, 'jw_sz_indices', lambda: (sz, n, ne), lambda a, b, c: st.jw_sz_indices(a, b, n_electrons=c),
+                    {'args': [sz, n, ne]})
+    state_check(stream, 'jw_configuration_state', lambda: ([0, 2], 3), st.jw_configuration_state)
+    state_check(stream, 'jw_configuration_state', lambda: (numpy.array([1, 3]), 4), st.jw_configuration_state)
+    state_check(stream, 'jw_hartree_fock_state', lambda: (2, 4), st.jw_hartree_fock_state)
+    nops = budget(ctx.tier, 3, 12)
+    for _ in range(nops):
+        n = rng.choice([3, 4, 4])
+        f = {t: band_coef(rng) for t in rand_any_op(rng, n, nterms=4)}
+        f.update(rand_conserving_op(rng, n, nterms=2))
+        H = fop(of, f)
+        S = of.get_sparse_operator(H, n)
+        D = S.toarray()
+        vec = numpy.array([band_coef(rng) if rng.random() < 0.7 else 0.0 for _ in range(2 ** n)], dtype=complex)
+        for k in range(n + 1):
+            for M, lab in ((S, 'csc'), (D, 'dense')):
+                state_check(stream, 'jw_number_restrict_operator', lambda: (M, k, n), st.jw_number_restrict_operator,
+                            {'matrix': lab, 'k': k})
+            state_check(stream, 'jw_number_restrict_state', lambda: (vec, k, n), st.jw_number_restrict_state, {'k': k})
+        if n % 2 == 0:
+            for s2 in range(-n // 2, n // 2 + 1):
+                for M, lab in ((S, 'csc'), (D, 'dense')):
+                    state_check(stream, 'jw_sz_restrict_operator', lambda: (M, s2 / 2, None, n), st.jw_sz_restrict_operator,
+                                {'matrix': lab, 'sz': s2 / 2})
+                state_check(stream, 'jw_sz_restrict_state', lambda: (vec, s2 / 2, None, n), st.jw_sz_restrict_state)
+        # cross-function: derived values before / after a caller modified every index list it was given
+        def derived():
+            out = []
+            for k in range(n + 1):
+                out.append(canon_val(st.jw_number_restrict_operator(S, k, n)))
+                out.append(canon_val(st.jw_number_restrict_state(vec, k)))
+                out.append(canon_val(st.jw_number_indices(k, n)))
+            if n % 2 == 0:
+                for s2 in range(-n // 2, n // 2 + 1):
+                    out.append(canon_val(st.jw_sz_restrict_operator(S, s2 / 2)))
+                    out.append(canon_val(st.jw_sz_restrict_state(vec, s2 / 2, n_electrons=abs(s2))))
+            return out
+        case = {'fn': 'restrictions after index lists were modified by the caller', 'check': 'state', 'n_qubits': n,
+                'fermion_op': [[list(map(list, t)), to_gq(c)] for t, c in f.items()]}
+        stream.case(case)
+        stream.count('state:cross-function')
+        try:
+            before = derived()
+            for k in range(n + 1):
+                sector = st.jw_number_indices(k, n)
+                sector += st.jw_number_indices((k + 1) % (n + 1), n)
+                sector.append(0)
+                if n % 2 == 0:
+                    for s2 in range(-n // 2, n // 2 + 1):
+                        l2 = st.jw_sz_indices(s2 / 2, n)
+                        l2 += [1, 2, 3]
+                        l3 = st.jw_sz_indices(s2 / 2, n, n_electrons=abs(s2))
+                        l3.reverse()
+                        l3 += l2
+            st.jw_configuration_state([0], n)[:] = 5
+            after = derived()
+            if before != after:
+                stream.violate('restrictions / index lists change after a caller modified earlier results in place',
+                               case, {})
+        except Exception as e:  # noqa: BLE001
+            stream.violate('restriction raised %s in the cross-function state check' % errname(e), case, {})
+        # ground state energies (float contract) before / after the same kind of modification
+        Hh = H + of.hermitian_conjugated(H)
+        Sh = of.get_sparse_operator(Hh, n)
+        Dh = Sh.toarray()
+        for k in range(n + 1):
+            sector = [i for i in range(2 ** n) if popcount(i) == k]
+            if len(sector) >= 3 and not numpy.any(Dh[numpy.ix_(sector, sector)]):
+                continue
+            case = {'fn': 'jw_get_ground_state_at_particle_number', 'check': 'state', 'k': k, 'n_qubits': n}
+            stream.case(case)
+            stream.count('state:ground-state')
+            try:
+                snap = canon_val(Sh)
+                E1, p1 = st.jw_get_ground_state_at_particle_number(Sh, k)
+                p1[:] = 0
+                lst = st.jw_number_indices(k, n)
+                lst += [0, 1]
+                E2, p2 = st.jw_get_ground_state_at_particle_number(Sh, k)
+                stream.float_comparisons += 2
+                emin = float(numpy.linalg.eigvalsh(Dh[numpy.ix_(sector, sector)])[0])
+                if abs(E1 - E2) > 1e-9 or abs(E2 - emin) > 1e-9:
+                    stream.violate('ground energy changes between two calls around in-place modifications', case,
+                                   {'first': E1, 'second': E2, 'expected': emin})
+                if len(p2) != 2 ** n or canon_val(Sh) != snap:
+                    stream.violate('jw_get_ground_state_at_particle_number modified its argument / wrong length', case, {})
+            except Exception as e:  # noqa: BLE001
+                stream.violate('jw_get_ground_state_at_particle_number raised %s' % errname(e), case, {})
+        # expectation value, number-preserving operator, determinant basis
+        Hn = of.normal_ordered(fop(of, rand_conserving_op(rng, n, nterms=3)))
+        if all(len(t) <= 4 for t in Hn.terms):
+            occ = [rng.randint(0, 1) for _ in range(n)]
+            state_check(stream, 'expectation_computational_basis_state', lambda: (Hn, list(occ)),
+                        st.expectation_computational_basis_state)
+            idx = sum(1 << (n - 1 - j) for j in range(n) if occ[j])
+            v = numpy.zeros(2 ** n)
+            v[idx] = 1
+            state_check(stream, 'expectation_computational_basis_state', lambda: (Hn, v),
+                        st.expectation_computational_basis_state)
+        ne = rng.randint(0, n)
+        ref = [i < ne for i in range(n)]
+        rng.shuffle(ref)
+        for spin in (False, True):
+            Hc = fop(of, rand_conserving_op(rng, n, spin, nterms=3))
+            for level in (None, 1):
+                def mk(level=level, spin=spin, Hc=Hc):
+                    return (Hc, n, ne, spin, numpy.array(ref), level)
+                state_check(stream, 'get_number_preserving_sparse_operator', mk,
+                            lambda a, b, c, d, e, g: st.get_number_preserving_sparse_operator(
+                                a, b, c, spin_preserving=d, reference_determinant=e, excitation_level=g),
+                            {'spin': spin, 'level': level})
+                state_check(stream, 'get_number_preserving_sparse_operator', lambda: (Hc, n, ne, spin, list(ref), level),
+                            lambda a, b, c, d, e, g: st.get_number_preserving_sparse_operator(
+                                a, b, c, spin_preserving=d, reference_determinant=e, excitation_level=g),
+                            {'spin': spin, 'level': level, 'reference': 'list'})
+            state_check(stream, '_iterate_basis_', lambda: (numpy.array(ref), min(ne, 2), spin),
+                        lambda a, b, c: list(st._iterate_basis_(a, b, c)), {'spin': spin})
+    for name, fn, arg in [('number_operator', so.number_operator, (4,)), ('number_operator', so.number_operator, (4, 2, 0.5)),
+                          ('sz_operator', so.sz_operator, (2,)), ('s_squared_operator', so.s_squared_operator, (2,)),
+                          ('s_plus_operator', so.s_plus_operator, (2,)), ('s_minus_operator', so.s_minus_operator, (2,)),
+                          ('sx_operator', so.sx_operator, (2,)), ('sy_operator', so.sy_operator, (2,))]:
+        state_check(stream, name, lambda: arg, fn)
+
+    # ---------------- (T) argument types and containers accepted by the library
+    for (k, n) in [(2, 5), (0, 3), (4, 4), (1, 9)]:
+        type_check(stream, 'jw_number_indices', lambda: st.jw_number_indices(k, n),
+                   [('%s,%s' % (A.__name__, B.__name__), (lambda A=A, B=B: st.jw_number_indices(A(k), B(n))))
+                    for A, B in [(I64, I64), (I32, I64), (I8, U8), (U8, I32), (int, I64)]])
+    for (sz, n, ne) in [(0.5, 4, 1), (-0.5, 6, 3), (1.0, 4, None), (0.0, 6, 2), (-1.0, 4, 2)]:
+        vs = [('float64', lambda: st.jw_sz_indices(numpy.float64(sz), n, n_electrons=ne)),
+              ('float32', lambda: st.jw_sz_indices(numpy.float32(sz), n, n_electrons=ne)),
+              ('numpy ints', lambda: st.jw_sz_indices(sz, I64(n), n_electrons=None if ne is None else I32(ne)))]
+        if float(sz).is_integer():
+            vs += [('int sz', lambda: st.jw_sz_indices(int(sz), n, n_electrons=ne)),
+                   ('int64 sz', lambda: st.jw_sz_indices(I64(int(sz)), n, n_electrons=ne))]
+        type_check(stream, 'jw_sz_indices', lambda: st.jw_sz_indices(sz, n, n_electrons=ne), vs)
+    for occ, n in [([0, 2], 4), ([3], 4), ([], 2), ([1, 2, 4], 5)]:
+        type_check(stream, 'jw_configuration_state', lambda: st.jw_configuration_state(occ, n),
+                   [('tuple', lambda: st.jw_configuration_state(tuple(occ), n)),
+                    ('ndarray', lambda: st.jw_configuration_state(numpy.array(occ, dtype=int), I64(n))),
+                    ('set', lambda: st.jw_configuration_state(set(occ), n)),
+                    ('numpy ints', lambda: st.jw_configuration_state([I64(i) if i % 2 else I32(i) for i in occ], I32(n))),
+                    ('reversed', lambda: st.jw_configuration_state(list(reversed(occ)), n))])
+    type_check(stream, 'jw_hartree_fock_state', lambda: st.jw_hartree_fock_state(2, 5),
+               [('numpy ints', lambda: st.jw_hartree_fock_state(I64(2), I32(5)))])
+    for _ in range(budget(ctx.tier, 3, 10)):
+        n = rng.choice([2, 3, 4])
+        f = {t: band_coef(rng) for t in rand_any_op(rng, n, nterms=4)}
+        S = of.get_sparse_operator(fop(of, f), n)
+        D = S.toarray()
+        small = scipy.sparse.csc_matrix(numpy.array([[rng.randint(-3, 3) + 1j * rng.randint(-2, 2) for _ in range(2 ** n)]
+                                                     for _ in range(2 ** n)]))
+        vec = numpy.array([rng.randint(-4, 4) for _ in range(2 ** n)])
+        for k in range(n + 1):
+            type_check(stream, 'jw_number_restrict_operator', lambda: st.jw_number_restrict_operator(S, k, n),
+                       [('csr', lambda: st.jw_number_restrict_operator(S.tocsr(), k, n)),
+                        ('dense', lambda: st.jw_number_restrict_operator(D, k)),
+                        ('fortran', lambda: st.jw_number_restrict_operator(numpy.asfortranarray(D), I64(k), I32(n))),
+                        ('lil', lambda: st.jw_number_restrict_operator(S.tolil(), k, None)),
+                        ('matrix', lambda: st.jw_number_restrict_operator(numpy.matrix(D), k, n))], canon=values_only)
+            type_check(stream, 'jw_number_restrict_operator', lambda: st.jw_number_restrict_operator(small, k, n),
+                       [('complex64', lambda: st.jw_number_restrict_operator(small.astype(numpy.complex64), k, n)),
+                        ('complex64 dense', lambda: st.jw_number_restrict_operator(small.toarray().astype(numpy.complex64), k))],
+                       canon=values_only)
+            type_check(stream, 'jw_number_restrict_state', lambda: st.jw_number_restrict_state(vec.astype(complex), k, n),
+                       [(str(numpy.dtype(dt)), (lambda dt=dt: st.jw_number_restrict_state(vec.astype(dt), I64(k))))
+                        for dt in (numpy.complex64, float, numpy.float32, numpy.int64, numpy.int32)], canon=values_only)
+        if n % 2 == 0:
+            for s2 in range(-n // 2, n // 2 + 1):
+                type_check(stream, 'jw_sz_restrict_operator', lambda: st.jw_sz_restrict_operator(S, s2 / 2),
+                           [('dense float32 sz', lambda: st.jw_sz_restrict_operator(D, numpy.float32(s2 / 2), n_qubits=I64(n))),
+                            ('csr', lambda: st.jw_sz_restrict_operator(S.tocsr(), numpy.float64(s2 / 2)))], canon=values_only)
+                type_check(stream, 'jw_sz_restrict_state', lambda: st.jw_sz_restrict_state(vec.astype(complex), s2 / 2),
+                           [('int64', lambda: st.jw_sz_restrict_state(vec, numpy.float64(s2 / 2), n_qubits=I32(n)))],
+                           canon=values_only)
+    # expectation values: numpy scalars placed directly into .terms; list / vector element types
+    oracle = []
+    for _ in range(budget(ctx.tier, 6, 30)):
+        n = rng.choice([2, 3, 4])
+        H = of.FermionOperator()
+        scal = [numpy.complex64, numpy.float32, numpy.int64, numpy.float64, numpy.complex128, float, int]
+        for i in range(n):
+            if rng.random() < 0.7:
+                H.terms[((i, 1), (i, 0))] = rng.choice(scal)(rng.randint(-3, 3))
+            for j in range(i + 1, n):
+                if rng.random() < 0.5:
+                    H.terms[((j, 1), (i, 1), (j, 0), (i, 0))] = rng.choice(scal)(rng.choice([0.5, -2, 1, 3]))
+        H.terms[()] = rng.choice(scal)(rng.randint(-2, 2))
+        if n >= 2:
+            H.terms[((1, 1), (0, 0))] = numpy.complex64(1 + 2j)
+        f = dict(H.terms)
+        for s in range(2 ** n):
+            occ = [(s >> j) & 1 for j in range(n)]
+            idx = sum(1 << (n - 1 - j) for j in range(n) if occ[j])
+            variants = [('bool list', [bool(b) for b in occ]), ('numpy.bool_ list', [numpy.bool_(b) for b in occ]),
+                        ('numpy int list', [I64(b) if j % 2 else I8(b) for j, b in enumerate(occ)])]
+            for dt in (numpy.float32, complex, numpy.int64, bool, float):
+                v = numpy.zeros(2 ** n, dtype=dt)
+                v[idx] = 1
+                variants.append(('vector ' + str(numpy.dtype(dt)), v))
+                variants.append(('csr ' + str(numpy.dtype(dt)), scipy.sparse.csr_matrix(v.reshape(2 ** n, 1))))
+            for label, arg in variants:
+                case = {'fn': 'expectation_computational_basis_state', 'check': 'types', 'variant': label, 'occupation': occ,
+                        'fermion_op': [[list(map(list, t)), to_gq(c)] for t, c in f.items()]}
+                stream.case(case)
+                stream.count('types:expectation')
+                try:
+                    val = to_gq(st.expectation_computational_basis_state(H, arg))
+                except Exception as e:  # noqa: BLE001
+                    stream.violate('expectation_computational_basis_state raised %s for %s' % (errname(e), label), case, {})
+                    continue
+                oracle.append((case, val, {'op': 'c10.spec_expect', 'f': enc_op('fermion', f), 'masks': [s]}))
+    # (B) indices >= 257 : occupation lists with 300 orbitals
+    nbig = 300
+    H = of.FermionOperator()
+    picks = [0, 255, 256, 257, 258, 299]
+    for i in picks:
+        H.terms[((i, 1), (i, 0))] = float(rng.randint(1, 5))
+    for a in range(len(picks)):
+        for b in range(a + 1, len(picks)):
+            H.terms[((picks[b], 1), (picks[a], 1), (picks[b], 0), (picks[a], 0))] = rng.choice([0.5, -1.5, 2.0, 0.25])
+    H.terms[()] = 1.0
+    for _ in range(4):
+        occ = [0] * nbig
+        for i in rng.sample(picks, rng.randint(1, len(picks))):
+            occ[i] = 1
+        for i in rng.sample(range(nbig), 20):
+            occ[i] = 1
+        case = {'fn': 'expectation_computational_basis_state', 'check': 'bands', 'orbitals': nbig,
+                'occupied': [i for i in range(nbig) if occ[i]]}
+        stream.case(case)
+        stream.count('bands:expectation-300-orbitals')
+        try:
+            val = st.expectation_computational_basis_state(H, list(occ))
+        except Exception as e:  # noqa: BLE001
+            stream.violate('expectation_computational_basis_state raised %s' % errname(e), case, {})
+            continue
+        want = H.terms[()] + sum(H.terms[((i, 1), (i, 0))] for i in picks if occ[i]) \
+            - sum(H.terms[((picks[b], 1), (picks[a], 1), (picks[b], 0), (picks[a], 0))]
+                  for a in range(len(picks)) for b in range(a + 1, len(picks)) if occ[picks[a]] and occ[picks[b]])
+        if to_gq(val) != to_gq(want):
+            stream.violate('expectation value wrong for orbital indices >= 257', case, {'got': val, 'want': want})
+    answers = ctx.driver.run([r for _, _, r in oracle])
+    for (case, val, r), ans in zip(oracle, answers):
+        stream.count('oracle:checked')
+        if from_gq(ans[0]) != from_gq(val):
+            stream.violate('expectation value differs from <s|F|s> of the Spec', case, {'implementation': val, 'spec': ans[0]})
+    # number-preserving operator: reference containers, numpy integer arguments, numpy.float64 / complex128 coefficients
+    for _ in range(budget(ctx.tier, 4, 16)):
+        n = rng.choice([3, 4, 5])
+        ne = rng.randint(1, n - 1)
+        ref = [i < ne for i in range(n)]
+        rng.shuffle(ref)
+        spin = rng.random() < 0.5
+        f = rand_conserving_op(rng, n, spin, nterms=3)
+        f = {t: (band_coef(rng) if rng.random() < 0.4 else c) for t, c in f.items()}
+        Hc = fop(of, f)
+        H2 = of.FermionOperator()
+        for t, c in f.items():
+            H2 += of.FermionOperator(t, numpy.complex128(c) if isinstance(c, complex) else numpy.float64(c))
+        level = rng.choice([None, 1, ne])
+        call = lambda H=Hc, r=ref, a=n, b=ne, sp=spin, lv=level: st.get_number_preserving_sparse_operator(
+            H, a, b, spin_preserving=sp, reference_determinant=r, excitation_level=lv)
+        type_check(stream, 'get_number_preserving_sparse_operator', call,
+                   [('tuple reference', lambda: call(r=tuple(ref))),
+                    ('ndarray reference', lambda: call(r=numpy.array(ref))),
+                    ('numpy.bool_ reference', lambda: call(r=[numpy.bool_(b) for b in ref])),
+                    ('numpy ints', lambda: call(a=I64(n), b=I32(ne), lv=None if level is None else I64(level))),
+                    ('numpy.bool_ flag', lambda: call(sp=numpy.bool_(spin))),
+                    ('numpy float64 / complex128 coefficients', lambda: call(H=H2))], canon=values_only)
+    type_check(stream, 'number_operator', lambda: so.number_operator(5, 3, 0.5),
+               [('numpy int n_modes, float64', lambda: so.number_operator(I64(5), 3, numpy.float64(0.5)))])
+    type_check(stream, 'number_operator', lambda: so.number_operator(4, None, 2j),
+               [('numpy int, complex128', lambda: so.number_operator(I64(4), None, numpy.complex128(2j)))])
+
+    # ---------------- (B) sizes beyond 8 and 16 (closed-form oracles: distinct, in range, right counts, right number)
+    for n in (17, 20, 33):
+        for k in (0, 1, 2, n - 1, n, n + 1):
+            case = {'fn': 'jw_number_indices', 'check': 'bands', 'n_electrons': k, 'n_qubits': n}
+            stream.case(case)
+            stream.count('bands:jw_number_indices')
+            try:
+                a = [int(x) for x in st.jw_number_indices(k, n)]
+            except Exception as e:  # noqa: BLE001
+                stream.violate('jw_number_indices raised %s' % errname(e), case, {})
+                continue
+            if len(a) != comb(n, k) or len(set(a)) != len(a) or any(not (0 <= i < 2 ** n and popcount(i) == k) for i in a):
+                stream.violate('jw_number_indices does not enumerate exactly once the basis states of the sector', case,
+                               {'length': len(a), 'expected_length': comb(n, k)})
+    for n in (10, 18, 20):
+        sites = n // 2
+        for sz, ne in [(0.5, 1), (-0.5, 1), (0.0, 2), (1.0, 2), (-1.0, 2), (0.5, 3), (sites / 2, None), (-sites / 2, None),
+                       ((sites - 1) / 2, None)]:
+            case = {'fn': 'jw_sz_indices', 'check': 'bands', 'sz_value': sz, 'n_qubits': n, 'n_electrons': ne}
+            stream.case(case)
+            stream.count('bands:jw_sz_indices')
+            try:
+                a = [int(x) for x in st.jw_sz_indices(sz, n, n_electrons=ne)]
+            except Exception as e:  # noqa: BLE001
+                stream.violate('jw_sz_indices raised %s' % errname(e), case, {})
+                continue
+            s2 = int(2 * sz)
+            def ud(i):
+                up = sum((i >> (n - 1 - 2 * s)) & 1 for s in range(sites))
+                dn = sum((i >> (n - 2 - 2 * s)) & 1 for s in range(sites))
+                return up, dn
+            if ne is not None:
+                nu = (ne + s2) // 2
+                want = comb(sites, nu) * comb(sites, ne - nu)
+            else:
+                want = sum(comb(sites, m) * comb(sites, m - abs(s2)) for m in range(abs(s2), sites + 1))
+            ok = len(a) == want and len(set(a)) == len(a)
+            for i in a:
+                u, d = ud(i)
+                ok = ok and 0 <= i < 2 ** n and u - d == s2 and (ne is None or u + d == ne)
+            if not ok:
+                stream.violate('jw_sz_indices does not enumerate exactly once the basis states of the sector', case,
+                               {'length': len(a), 'expected_length': want})
+    reqs, meta = [], []
+    for n, occ in [(17, [0, 16]), (17, [15, 16]), (18, [0, 8, 17]), (20, [16, 19]), (20, list(range(20)))]:
+        reqs.append({'op': 'c10.config_index', 'occ': occ, 'n': n})
+        meta.append((n, occ))
+    for (n, occ), mo in zip(meta, ctx.driver.run(reqs)):
+        case = {'fn': 'jw_configuration_state', 'check': 'bands', 'occupied': occ, 'n_qubits': n}
+        stream.case(case)
+        stream.count('bands:jw_configuration_state')
+        try:
+            v = st.jw_configuration_state(occ, n)
+            nz = numpy.nonzero(v)[0]
+            want = sum(1 << (n - 1 - i) for i in occ)
+            if len(v) != 2 ** n or len(nz) != 1 or int(nz[0]) != want or v[nz[0]] != 1:
+                stream.violate('jw_configuration_state is not the big-endian basis vector', case, {'index': [int(x) for x in nz]})
+            if int(nz[0]) != mo:
+                stream.disagree('index of the 1 entry', case, int(nz[0]), mo)
+        except Exception as e:  # noqa: BLE001
+            stream.violate('jw_configuration_state raised %s' % errname(e), case, {})
+    reqs, meta = [], []
+    for n, mode, c in [(300, 299, 0.5), (300, 257, -2.0), (260, None, 1.0), (258, 256, 1j)]:
+        reqs.append({'op': 'c10.special', 'name': 'number', 'n': n, 'mode': mode, 'c': to_gq(c)})
+        meta.append((n, mode, c))
+    for (n, mode, c), mo in zip(meta, ctx.driver.run(reqs)):
+        case = {'fn': 'number_operator', 'check': 'bands', 'n': n, 'mode': mode}
+        stream.case(case)
+        stream.count('bands:number_operator')
+        try:
+            a = so.number_operator(n, mode, c)
+            ja = enc_op('fermion', a.terms)
+            want = {((m, 1), (m, 0)): c for m in (range(n) if mode is None else [mode])}
+            if canon_op_json(ja) != canon_op_json(enc_op('fermion', want)):
+                stream.violate('number_operator is not sum of c m^ m for mode indices >= 257', case, {})
+            if canon_op_json(ja) != canon_op_json(mo):
+                stream.disagree('terms', case, len(ja), len(mo))
+        except Exception as e:  # noqa: BLE001
+            stream.violate('number_operator raised %s' % errname(e), case, {})
+
+
 # ------------------------------------------------------------------ entry points
 
 def classify(v):
@@ -699,5 +1227,13 @@ def run(ctx):
     s = Stream('ground-state', 'random Hermitian number-conserving operators on <= 4 qubits [5 thorough], every particle '
                'number; float contract (energy, support, eigenvector residual) with absolute tolerance 1e-9 / 1e-8')
     check_ground(ctx, s, big)
+    streams.append(s)
+    s = Stream('hardening', '(S) every function called twice around an in-place modification of its first result, arguments '
+               'snapshotted, no shared memory, restrictions / ground energies re-queried after a caller modified every index list; '
+               '(T) numpy integer / float scalars, int8..int64, float32/64, complex64/128, bool, tuples / sets / arrays / Fortran '
+               'order / csr / lil / numpy.matrix, numpy scalars placed into .terms (only types the unmodified library accepts); '
+               '(B) coefficients of magnitude 1e-7..1e-4 next to O(1), purely imaginary coefficients, n = 17, 18, 20, 33 qubits, '
+               'orbital indices >= 257; closed-form oracles (counts, popcounts) where the Lean enumeration is too large')
+    check_hardening(ctx, s, big)
     streams.append(s)
     return streams
